@@ -124,7 +124,7 @@ pub mod identity_env {
 //@        attr #[verifier::exec_allows_no_decreases_clause]
 //@        desugar_for
 //@        body_sub concurrent\.into_iter\(\)\.collect::<Vec<_>>\(\) => vx_collect(concurrent)
-//@        body_sub debug_assert!\(!identity\.timeline\.contains\(&id\)\); => 
+//@        body_sub debug_assert!\(!\w+\.timeline\.contains\(&id\)\); => 
 //@end
 
 //@canary
